@@ -265,10 +265,12 @@ func ruleOrderSensitiveLoops(p *Program, r *Report) {
 				return
 			}
 			stores++
-			// is there a test of the slot's previous content (collision check) dominating the store?
-			for _, b := range fn.Blocks {
-				cond := IfCond(b)
-				if cond == nil || !b.Dominates(st.Block()) {
+			// is the store executed only under a test of the slot's previous content (a collision check)?  A test that
+			// merely precedes the store (counting the slots that were empty) does not protect it.
+			pdS := NewPostDom(fn)
+			for _, cd := range pdS.TransitiveControlDeps(st.Block()) {
+				cond := IfCond(cd.Br)
+				if cond == nil {
 					continue
 				}
 				if DependsOn(cond, func(v ssa.Value) bool {
